@@ -191,7 +191,7 @@ class YncaCommandHandler(socketserver.StreamRequestHandler):
     def _send_stored_value_or_error(self, subunit, function, skip_error_response=False) -> str | None:
         """ Sends the value that is stored, returns the value or None if it did not exist """
         value = self.store.get_data(subunit, function)
-        if value.startswith("@"):
+        if value in [UNDEFINED, RESTRICTED]:
             if not skip_error_response:
                 self._send_ynca_error(value)
             return None
